@@ -42,10 +42,10 @@ PROPS = {
                 gen=parse_family('C06', 3000, 40000, maxlen=9), flavours=['c'],
                 rule='grammars with and without error rules; non-sentences (mutated sentences, prefixes, random strings); recovery off (exact argument tuple) and on (well-formedness of every callback, strictly increasing error tokens, first error token = model)',
                 assumptions=COMMON_ASSUME + ['firstError_iff_viable / firstError2_iff_viable need every nonterminal productive (strict grammars); callback theorems (calls_wf, calls_increasing) hold under r.ok (search finished within fuel)']),
-    'C07': dict(level='proof', theorem_modules=['C07', 'C06', 'C02'], min_theorems=12, tags=['C07'], crash_counts=True,
+    'C07': dict(level='proof', theorem_modules=['C07', 'C06', 'C02', 'RecoveredParse'], min_theorems=12, tags=['C07'], crash_counts=True,
                 gen=lambda seed, tier: parse_family('C07', 3000, 40000, maxlen=9)(seed, tier) + [c for c in long_c09_cases(seed, 'quick') if 'farback' in c[0]], flavours=['c'],
                 rule='grammars with 0..3 error rules, non-sentences <= 9 tokens, recovery_match 1..5, one/all parses, lookahead 0-2: return code, non-NULL tree, tree vs translations of the repaired input (read off the model parse list), ignored-token accounting, callbacks and final parse list vs the step-for-step recovery model',
-                assumptions=COMMON_ASSUME + ['theorems about the recovery model hold under r.ok (the search finished within its fuel and found a best state); termination and minimality of the search are not proved']),
+                assumptions=COMMON_ASSUME + ['the recovery search is proved to finish within recoveryFuel (exponential in the input length, finding D28) and recovered_parse_one / recovered_parse_all take that fuel; theorems with the hypothesis r.ok hold for any smaller fuel on which the search happened to finish', 'after a recovery the all-parses forest is sound but may be incomplete (finding D9), as without recovery']),
     'C08': dict(level='proof', theorem_modules=['C08', 'C06'], min_theorems=4, tags=['C08'], crash_counts=True,
                 gen=parse_family('C08', 3000, 40000, maxlen=9), flavours=['c'],
                 rule='grammars with error rules, non-sentences <= 9 tokens, recovery_match 1..5, lookahead 0-2: the number of tokens the first callback reports ignored vs the minimum over all simple recoveries (back position with `. error` x forward skip) computed by brute force from the statement over the model sets',
@@ -90,7 +90,7 @@ PROPS = {
                 assumptions=['partial by nature: absence of sanitizer reports on the explored inputs, not a proof of memory safety of the pointer code',
                              'Lean carries only the decision logic behind bounds (recovery index arithmetic is validated by the C06/C07 checks, containers by C19)'],
                 technique='sanitizer-instrumented exploration driven by the same generators; Lean theorems only for the modelled index/bounds logic (partial)'),
-    'C13': dict(level='proof', theorem_modules=['C13', 'PruneC', 'HeapWf'], min_theorems=24, tags=['C13'], crash_counts=True,
+    'C13': dict(level='proof', theorem_modules=['C13', 'PruneC', 'HeapWf', 'NoGarbage'], min_theorems=24, tags=['C13'], crash_counts=True,
                 gen=lambda seed, tier: gen.gen_history_cases(seed, 4000 if tier == 'thorough' else 1000) +
                                        gen.gen_parse_cases(seed + 7, 6000 if tier == 'thorough' else 1500, 'C13'), flavours=['c'],
                 rule='every caller-side parse_alloc / parse_free / termcb event of every parse is logged with block ids: frees must hit live blocks of the same parse exactly once, everything reachable from the root must lie in live blocks (walk before and after yaep_free_grammar under ASan with real frees), yaep_free_tree must release all blocks of the parse and call termcb once per TERM node; definitions are handed over as heap copies that are scribbled and freed right after the defining call',
